@@ -33,6 +33,11 @@ NAMESETS = {
     "numberlike": ["nan", "inf", "e"],
     "numberlike2": ["Infinity", "j", "NaN"],
     "numberlike3": ["oo", "zoo", "true"],
+    # indexed names of which one is a suffix / prefix / digit-prefix of another
+    "indexed_suffix": ["a[0]", "beta[0]", "theta[0]"],
+    "indexed_suffix2": ["t[1]", "wt[1]", "dwt[1]"],
+    "indexed_digits": ["x[1]", "x[11]", "x[111]"],
+    "indexed_under": ["p_1[2]", "p_12[2]", "p[12]"],
 }
 EXPR_SHAPES = ["a", "2*a", "a+b", "a*b", "a/2", "a**2", "0.5*a", "-a+0.25", "a**2+b", "a-b", "3"]
 
@@ -322,6 +327,15 @@ def instances(tier, seed):
             if ns == "same_base":
                 continue
             add([["RX", [_prm(sh, ns)], [], [0]], ["U_custom", [_prm(sh, ns, 1), _prm("a", ns, 2)], [], [1]]], label=f"RX+U_custom {sh} names={ns}")
+    # all three names of a name set in ONE gate (one bare symbol per parameter) and pairwise in one expression
+    for ns in namesets:
+        if ns == "same_base":
+            continue
+        add([["U3", [_prm("a", ns, 0), _prm("a", ns, 1), _prm("a", ns, 2)], [], [0]]], label=f"U3 of the three names of {ns}")
+        if ns.startswith("indexed"):
+            for sh in ("a+b", "a*b", "a-b"):
+                for rot in (0, 1, 2):
+                    add([["RX", [_prm(sh, ns, rot)], [], [0]], ["U_custom", [_prm("a", ns, rot), _prm("2*a", ns, (rot + 1) % 3)], ["c1"], [1, 0]]], label=f"RX+U_custom|c1 {sh} names={ns} rot={rot}")
     add([["RX", [_prm("a+b", "same_base")], [], [0]]], label="RX(x + x[0]) same base name plain and indexed")
     add([["RX", [_prm("cos(a)", "plain")], [], [0]], ["U_custom", [_prm("cos(a)", "sympyns1"), _prm("a", "indexed")], ["c1"], [1, 0]]], label="function-valued parameters cos(theta), cos(beta) (structure only)", skip_unitary=True)
     add([["U3", [_prm("a", "same_base", 1), _prm("a", "same_base", 2), _prm("a", "indexed")], [], [0]]], label="U3(x[0], x[1], x[3]) indexed only")
@@ -344,7 +358,7 @@ def instances(tier, seed):
                 base, npar, nq = "RY", 1, 1
             params = [_prm(rng.choice(["a", "2*a", "a+b"]), rng.choice(["plain", "sympyns1", "indexed"]), j) for j in range(npar)]
             add([[base, params, list(mods), list(range(nq + nctl))]], label=f"{base}|{'|'.join(mods)}")
-    const_mods = ["pow(2)", "pow(-1)", "pow(0.5)", "exp", "dagger", "c1"]
+    const_mods = ["pow(2)", "pow(-1)", "pow(0.5)", "exp", "dagger", "c1", "pow(0)", "pow(1)", "pow(-2)"]
     for d in (1, 2):
         for mods in itertools.product(const_mods, repeat=d):
             if sum(m in ("exp", "pow(0.5)") for m in mods) > 1:
